@@ -132,6 +132,8 @@ class SaveSim:
                     faults[-1]['persistent'] = True    # the condition does not clear by itself: a retry inside the call must not turn it into success
             end = 'crash_after_ack' if rng.random() < 0.4 else 'exit'
             steps.append({'op': 'save', 'src': src, 'via': via, 'path': path, 'faults': faults, 'end': end})
+            if rng.random() < 0.25:
+                steps[-1]['relative_path'] = True
             if not faults and rng.random() < 0.3:
                 steps[-1]['again'] = f'again{k}.nc'      # the same in-memory object saved a second time (nothing the first save did to it may matter)
             if faults and faults[0]['kind'] not in ('crash', 'crash_after') and rng.random() < 0.5:
@@ -142,9 +144,21 @@ class SaveSim:
                 steps.append({'op': 'save', 'src': src, 'via': via, 'retry': True,
                               'path': path if rng.random() < 0.6 else f'retry{k}.nc', 'faults': [], 'end': 'exit'})
             last_path = steps[-1]['path']
-        return {'engine': self.name, 'world': world, 'env': {'tz': tz}, 'ops': steps, 'units_meta': meta}
+        plan = {'engine': self.name, 'world': world, 'env': {'tz': tz}, 'ops': steps, 'units_meta': meta}
+        if world['time'] and rng.random() < 0.2:
+            world['analysis_time'] = True
+        if rng.random() < (0.03 if not big else 0.01):
+            # fault-free saves of this plan run in fresh interpreters under this hash seed (what a user's process has:
+            # the forked lifetimes all share the harness's PYTHONHASHSEED=0)
+            plan['fresh_hashseed'] = rng.randrange(1, 100000)
+            world['analysis_time'] = bool(world['time'])
+        return plan
 
     def shrink(self, plan):
+        if plan.get('fresh_hashseed'):
+            p = copy.deepcopy(plan)
+            p.pop('fresh_hashseed')
+            yield p
         yield from common.ddmin_ops(plan)
         if plan['env'].get('tz') not in (None, 'UTC0'):
             p = copy.deepcopy(plan)
@@ -180,12 +194,18 @@ class SaveSim:
                 # saving onto the file the lazily-opened source still reads from is a user hazard
                 # (an xarray limitation), not part of the property: use the world as the source
                 src_path = None
-            res = lifetimes.run_lifetime(_save_lifetime, plan['world'], step, scratch, tz, src_path)
+            if plan.get('fresh_hashseed') and not step['faults'] and step['end'] == 'exit':
+                res = _run_fresh(plan['fresh_hashseed'], plan['world'], step, scratch, tz, src_path)
+                out.stats['probe.save_in_fresh_interpreter_other_hashseed'] += 1
+            else:
+                res = lifetimes.run_lifetime(_save_lifetime, plan['world'], step, scratch, tz, src_path)
             if res['status'] in ('harness_error', 'timeout'):
                 out.harness_error = f'step {k}: {res["error"]}'
                 return
             for kind, payload in res['events']:
                 out.event(kind, step=k, **payload)
+                if kind == 'probe':
+                    out.stats[f"probe.{payload['name']}"] += 1
             out.event('lifetime_end', step=k, status=res['status'])
             done = [p for kk, p in res['events'] if kk == 'op_done']
             raised = [p for kk, p in res['events'] if kk == 'op_raised']
@@ -355,6 +375,65 @@ class SaveSim:
         return units
 
 
+class _RecordingCtx:
+    """Stands in for lifetimes.ChildCtx when a lifetime runs as the main program of a fresh interpreter."""
+
+    def __init__(self):
+        self.events, self.obs = [], {}
+
+    def emit(self, _ev, **payload):
+        self.events.append((_ev, payload))
+
+    def observe(self, key, value):
+        self.obs[key] = value
+
+    def crash(self, code=137):
+        os._exit(code)
+
+    def crash_after_ack(self):
+        os._exit(0)
+
+    def terminate(self):
+        os._exit(143)
+
+
+def _run_fresh(hashseed, world_spec, step, scratch, tz, src_path):
+    """The same lifetime function in a fresh interpreter with a real PYTHONHASHSEED."""
+    import pickle
+    import subprocess
+    import sys
+    lifetimes._LIFETIME_NO += 1
+    args = os.path.join(scratch, f'fresh_args_{lifetimes._LIFETIME_NO}.pkl')
+    outp = os.path.join(scratch, f'fresh_out_{lifetimes._LIFETIME_NO}.pkl')
+    with open(args, 'wb') as f:
+        pickle.dump({'world': world_spec, 'step': step, 'scratch': scratch, 'tz': tz, 'src_path': src_path, 'out': outp,
+                     'uuid_tag': f'{lifetimes._RUN_TAG}/fresh{lifetimes._LIFETIME_NO}'}, f)
+    env = dict(os.environ, PYTHONHASHSEED=str(hashseed), VERIF_NO_REEXEC='1')
+    p = subprocess.run([sys.executable, '-m', 'engines.savesim', args], capture_output=True, text=True, env=env,
+                       cwd=os.path.dirname(os.path.dirname(os.path.abspath(__file__))), timeout=300)
+    if p.returncode != 0 or not os.path.exists(outp):
+        return {'status': 'harness_error', 'error': f'fresh interpreter failed ({p.returncode}): {p.stdout[-300:]} {p.stderr[-1500:]}', 'events': [], 'obs': {}}
+    with open(outp, 'rb') as f:
+        got = pickle.load(f)
+    return {'status': 'exit', 'code': 0, 'events': got['events'], 'obs': got['obs'], 'error': None}
+
+
+def _fresh_main():
+    import pickle
+    import sys
+
+    from sim import bootstrap
+    bootstrap.ensure_env()
+    with open(sys.argv[1], 'rb') as f:
+        a = pickle.load(f)
+    common.warm()
+    lifetimes.seed_uuid(a['uuid_tag'])
+    ctx = _RecordingCtx()
+    _save_lifetime(ctx, a['world'], a['step'], a['scratch'], a['tz'], a['src_path'])
+    with open(a['out'], 'wb') as f:
+        pickle.dump({'events': ctx.events, 'obs': ctx.obs}, f)
+
+
 def _save_lifetime(ctx, world_spec, step, scratch, tz, src_path):
     import xarray
 
@@ -380,6 +459,11 @@ def _save_lifetime(ctx, world_spec, step, scratch, tz, src_path):
         ctx.emit('pre_observe_failed', **{k: v for k, v in observe.exc_info(e).items() if k != 'msg'})
     ctx.observe('pre', pre)
     path = os.path.join(scratch, step['path'])
+    if step.get('relative_path'):
+        # the caller works inside the output directory and gives a bare file name
+        os.chdir(scratch)
+        path = step['path']
+        ctx.emit('probe', name='bare_relative_output_name')
     t = world_spec['time']
     ctl.begin_op('save', step['faults'])
     acked = False
@@ -402,7 +486,7 @@ def _save_lifetime(ctx, world_spec, step, scratch, tz, src_path):
         acked = False
         ctx.emit('second_save_of_same_object')
     if not acked and step.get('inproc_retry'):
-        path2 = os.path.join(scratch, step['inproc_retry'])
+        path2 = os.path.join(scratch, step['inproc_retry']) if not step.get('relative_path') else step['inproc_retry']
         ctl.begin_op('save_retry', [])
         acked2 = False
         try:
@@ -424,3 +508,7 @@ def _save_lifetime(ctx, world_spec, step, scratch, tz, src_path):
 
 
 ENGINE = SaveSim()
+
+
+if __name__ == '__main__':
+    _fresh_main()
